@@ -325,7 +325,25 @@ Open Scope N_scope.
 Definition comps_of (g : glyph) : option (list N) :=
   match g with GComposite c _ => Some c | _ => None end.
 
-Definition small (l : limits) : Prop := l_pts l < 65536 /\ l_ctr l < 65536 /\ l_depth l < 65535.
+Definition small (l : limits) : Prop := l_pts l < 65536 /\ l_ctr l < 65536 /\ l_depth l < 65536.
+
+Lemma fits16_small : forall l, fits16 l = true <-> small l.
+Proof.
+  intros l. unfold fits16, small. rewrite !andb_true_iff, !N.ltb_lt. tauto.
+Qed.
+
+Lemma finish_some : forall m l l', finish m l = Some l' -> l' = l /\ (m = Checked -> small l).
+Proof.
+  intros [] l l' H; cbn [finish] in H.
+  - injection H as <-. split; [reflexivity|intros E; discriminate E].
+  - destruct (fits16 l) eqn:E; [|discriminate]. injection H as <-. split; [reflexivity|]. intros _. apply fits16_small. exact E.
+Qed.
+
+Lemma finish_none : forall m l, finish m l = None -> m = Checked /\ ~ small l.
+Proof.
+  intros [] l H; cbn [finish] in H; [discriminate|].
+  destruct (fits16 l) eqn:E; [discriminate|]. split; [reflexivity|]. intros Hs. apply fits16_small in Hs. congruence.
+Qed.
 
 Definition lim_le (a b : limits) : Prop :=
   l_pts a <= l_pts b /\ l_ctr a <= l_ctr b /\ l_depth a <= l_depth b.
@@ -340,34 +358,6 @@ Lemma fold_lim_step_le : forall ls a, lim_le a (fold_left lim_step ls a).
 Proof.
   induction ls as [|e ls IH]; intros a; cbn [fold_left]; [apply lim_le_refl|].
   specialize (IH (lim_step a e)). pose proof (lim_step_le a e). unfold lim_le in *. lia.
-Qed.
-
-Lemma fold_step_ideal : forall ls a,
-  fold_left (fold_step Ideal) ls (Some a) = Some (fold_left lim_step ls a).
-Proof.
-  induction ls as [|e ls IH]; intros a; cbn [fold_left]; [reflexivity|].
-  cbn [fold_step add16]. rewrite IH. reflexivity.
-Qed.
-
-Lemma add16_small : forall m a b, a + b < 65536 -> add16 m a b = Some (a + b).
-Proof.
-  intros [] a b H; cbn [add16]; [reflexivity| |].
-  - now rewrite N.mod_small.
-  - destruct (N.ltb_spec (a + b) 65536); [reflexivity|lia].
-Qed.
-
-Lemma fold_step_small : forall m ls a, small (fold_left lim_step ls a) ->
-  fold_left (fold_step m) ls (Some a) = Some (fold_left lim_step ls a).
-Proof.
-  induction ls as [|e ls IH]; intros a Hs; cbn [fold_left] in *; [reflexivity|].
-  pose proof (fold_lim_step_le ls (lim_step a e)) as Hle.
-  destruct Hs as (S1 & S2 & S3). destruct Hle as (L1 & L2 & L3).
-  set (fin := fold_left lim_step ls (lim_step a e)) in *.
-  assert (P1 : l_pts a + l_pts e <= l_pts fin) by exact L1.
-  assert (P2 : l_ctr a + l_ctr e <= l_ctr fin) by exact L2.
-  assert (P3 : N.max (l_depth a) (l_depth e + 1) <= l_depth fin) by exact L3.
-  cbn [fold_step]. rewrite !add16_small by lia. subst fin.
-  rewrite IH; [reflexivity|]. unfold small. auto.
 Qed.
 
 Section Limits.
@@ -417,25 +407,26 @@ Definition unresolved (info : imap) (g : N) : Prop := exists gi, info g = Some g
 
 Definition is_comp (g : N) : Prop := exists c bb, G g = Some (GComposite c bb).
 
-Definition OmaxInv (info : imap) (omax : limits) (done : list limits) : Prop :=
+Definition OmaxInv (m : mode) (info : imap) (omax : limits) (done : list limits) : Prop :=
   omax = fold_left lim_max done lim_zero
   /\ (forall l, In l done -> exists g, is_comp g /\ has_limits gl g l)
-  /\ (forall g gi l, is_comp g -> info g = Some gi -> gi_limits gi = Some l -> In l done).
+  /\ (forall g gi l, is_comp g -> info g = Some gi -> gi_limits gi = Some l -> In l done)
+  /\ (m = Checked -> forall l, In l done -> small l).
 
 Lemma upd_same : forall info k v, upd info k v k = Some v.
 Proof. intros. unfold upd. now rewrite N.eqb_refl. Qed.
 Lemma upd_other : forall info k v g, g <> k -> upd info k v g = info g.
 Proof. intros. unfold upd. destruct (N.eqb_spec g k); [congruence|reflexivity]. Qed.
 
-Lemma pass_sound : forall m, mode_ok m -> forall pending info omax done info' kept omax',
-  Inv info -> OmaxInv info omax done ->
+Lemma pass_sound : forall m pending info omax done info' kept omax',
+  Inv info -> OmaxInv m info omax done ->
   pass m info pending omax = LOk (info', kept, omax') ->
-  Inv info' /\ (exists done', OmaxInv info' omax' done')
+  Inv info' /\ (exists done', OmaxInv m info' omax' done')
   /\ (forall g, In g kept -> In g pending)
   /\ (forall g, unresolved info' g -> unresolved info g /\ (In g pending -> In g kept))
   /\ (length kept <= length pending)%nat.
 Proof.
-  intros m Hm. induction pending as [|gid rest IH]; intros info omax done info' kept omax' HI HO H;
+  intros m. induction pending as [|gid rest IH]; intros info omax done info' kept omax' HI HO H;
     cbn [pass] in H.
   - inversion H; subst. repeat split; eauto; try tauto.
   - destruct (info gid) as [gi|] eqn:Egid; [|discriminate].
@@ -457,25 +448,25 @@ Proof.
       rewrite Ecomps in Ec0. destruct gly as [|cs bb|c bb]; cbn [comps_of] in Ec0; try discriminate.
       inversion Ec0; subst c.
       assert (Hhl : has_limits gl gid (sum_limits ls)) by (eapply HL_comp; eauto).
-      assert (Hfold : fold_left (fold_step m) ls (Some lim_zero) = Some (sum_limits ls)).
-      { destruct Hm as [->|Hm]; [apply fold_step_ideal|]. apply fold_step_small. apply (Hm _ _ Hhl). }
-      rewrite Hfold in H.
+      destruct (finish m (sum_limits ls)) as [limit|] eqn:Efin; [|discriminate].
+      destruct (finish_some _ _ _ Efin) as [-> Hsmall].
       set (info1 := upd info gid (mkGI (Some (sum_limits ls)) (Some comps))) in *.
       assert (HI1 : Inv info1).
       { intros g. destruct (N.eq_dec g gid) as [->|Hne].
         - rewrite EG. unfold info1. rewrite upd_same. eexists. split; [reflexivity|].
           cbn [gi_comps gi_limits comps_of]. repeat split; try congruence.
         - unfold info1. rewrite upd_other by assumption. apply HI. }
-      destruct HO as (O1 & O2 & O3).
-      assert (HO1 : OmaxInv info1 (lim_max omax (sum_limits ls)) (done ++ [sum_limits ls])).
-      { repeat split.
+      destruct HO as (O1 & O2 & O3 & O4).
+      assert (HO1 : OmaxInv m info1 (lim_max omax (sum_limits ls)) (done ++ [sum_limits ls])).
+      { split; [|split; [|split]].
         - rewrite fold_left_app. cbn [fold_left]. now rewrite <- O1.
         - intros l Hl. apply in_app_or in Hl. destruct Hl as [Hl|[<-|[]]]; [auto|].
           exists gid. split; [exists comps, bb; exact EG|exact Hhl].
         - intros g gi' l Hc Hi Hl. destruct (N.eq_dec g gid) as [->|Hne].
           + unfold info1 in Hi. rewrite upd_same in Hi. inversion Hi; subst. cbn in Hl. inversion Hl; subst.
             apply in_or_app. right. now left.
-          + unfold info1 in Hi. rewrite upd_other in Hi by assumption. apply in_or_app. left. eauto. }
+          + unfold info1 in Hi. rewrite upd_other in Hi by assumption. apply in_or_app. left. eauto.
+        - intros Hm l Hl. apply in_app_or in Hl. destruct Hl as [Hl|[<-|[]]]; [auto|auto]. }
       destruct (IH _ _ _ _ _ _ HI1 HO1 H) as (I1 & I2 & I3 & I4 & I5).
       split; [exact I1|]. split; [exact I2|]. split; [|split].
       * intros g Hg. right. auto.
@@ -520,43 +511,49 @@ Proof.
   destruct HI as (gi & E & _). congruence.
 Qed.
 
-(* with well-formed references and sums that fit, a pass cannot panic *)
-Lemma pass_total : forall m, mode_ok m -> refs_ok -> forall pending info omax done,
-  Inv info -> OmaxInv info omax done -> (forall g, In g pending -> is_comp g) ->
-  exists info' kept omax', pass m info pending omax = LOk (info', kept, omax').
+(* a composite whose recursive totals do not fit maxp's u16 fields *)
+Definition too_big : Prop := exists g l, is_comp g /\ has_limits gl g l /\ ~ small l.
+
+(* with well-formed references a pass cannot panic: it succeeds, or reports a total that does not fit *)
+Lemma pass_outcomes : forall m, refs_ok -> forall pending info omax done,
+  Inv info -> OmaxInv m info omax done -> (forall g, In g pending -> is_comp g) ->
+  (exists info' kept omax', pass m info pending omax = LOk (info', kept, omax'))
+  \/ (pass m info pending omax = LTooBig /\ m = Checked /\ too_big).
 Proof.
-  intros m Hm Hrefs. induction pending as [|gid rest IH]; intros info omax done HI HO Hp; cbn [pass].
-  - eauto.
+  intros m Hrefs. induction pending as [|gid rest IH]; intros info omax done HI HO Hp; cbn [pass].
+  - left. eauto.
   - destruct (Hp gid (or_introl eq_refl)) as (c & bb & EG).
     pose proof (HI gid) as Hg. rewrite EG in Hg. destruct Hg as (gi & Ei & Ec & El & _).
     rewrite Ei, Ec. cbn [comps_of].
     assert (Hnm : child_limits info c <> RMissing).
     { apply child_not_missing. intros x Hx. apply Inv_exists; [assumption|]. eapply Hrefs; eauto. }
     destruct (child_limits info c) as [| |ls] eqn:Ech; [congruence| |].
-    + destruct (IH info omax done HI HO) as (i & k & om & E); [intros g Hg; apply Hp; now right|].
-      rewrite E. eauto.
-    + (* reuse pass_sound's reasoning through the one-step unfolding *)
-      pose proof (child_limits_sound info HI c ls Ech) as HF2.
+    + destruct (IH info omax done HI HO) as [(i & k & om & E)|(E & Hm & Hb)]; [intros g Hg; apply Hp; now right| |].
+      * rewrite E. left. eauto.
+      * rewrite E. right. auto.
+    + pose proof (child_limits_sound info HI c ls Ech) as HF2.
       assert (Hhl : has_limits gl gid (sum_limits ls)) by (eapply HL_comp; eauto).
-      assert (Hfold : fold_left (fold_step m) ls (Some lim_zero) = Some (sum_limits ls)).
-      { destruct Hm as [->|Hm]; [apply fold_step_ideal|]. apply fold_step_small. apply (Hm _ _ Hhl). }
-      rewrite Hfold.
+      destruct (finish m (sum_limits ls)) as [limit|] eqn:Efin.
+      2:{ destruct (finish_none _ _ Efin) as [Hm Hns]. right. split; [reflexivity|]. split; [exact Hm|].
+          exists gid, (sum_limits ls). split; [exists c, bb; exact EG|]. auto. }
+      destruct (finish_some _ _ _ Efin) as [-> Hsmall].
       set (info1 := upd info gid (mkGI (Some (sum_limits ls)) (Some c))).
       assert (HI1 : Inv info1).
       { intros g. destruct (N.eq_dec g gid) as [->|Hne].
         - rewrite EG. unfold info1. rewrite upd_same. eexists. split; [reflexivity|].
           cbn [gi_comps gi_limits comps_of]. repeat split; try congruence.
         - unfold info1. rewrite upd_other by assumption. apply HI. }
-      destruct HO as (O1 & O2 & O3).
-      assert (HO1 : OmaxInv info1 (lim_max omax (sum_limits ls)) (done ++ [sum_limits ls])).
-      { repeat split.
+      destruct HO as (O1 & O2 & O3 & O4).
+      assert (HO1 : OmaxInv m info1 (lim_max omax (sum_limits ls)) (done ++ [sum_limits ls])).
+      { split; [|split; [|split]].
         - rewrite fold_left_app. cbn [fold_left]. now rewrite <- O1.
         - intros l Hl. apply in_app_or in Hl. destruct Hl as [Hl|[<-|[]]]; [auto|].
           exists gid. split; [exists c, bb; exact EG|exact Hhl].
         - intros g gi' l Hc Hi Hl. destruct (N.eq_dec g gid) as [->|Hne].
           + unfold info1 in Hi. rewrite upd_same in Hi. inversion Hi; subst. cbn in Hl. inversion Hl; subst.
             apply in_or_app. right. now left.
-          + unfold info1 in Hi. rewrite upd_other in Hi by assumption. apply in_or_app. left. eauto. }
+          + unfold info1 in Hi. rewrite upd_other in Hi by assumption. apply in_or_app. left. eauto.
+        - intros Hm l Hl. apply in_app_or in Hl. destruct Hl as [Hl|[<-|[]]]; [auto|auto]. }
       apply (IH info1 _ _ HI1 HO1). intros g Hg. apply Hp. now right.
 Qed.
 
@@ -578,7 +575,7 @@ Proof.
       destruct Hex as (g & gi' & comps' & ls' & [<-|Hin] & E1 & E2 & E3).
       * rewrite Egid in E1. inversion E1; subst. rewrite Ecomps in E2. inversion E2; subst. congruence.
       * exists g, gi', comps', ls'. auto.
-    + destruct (fold_left (fold_step m) ls (Some lim_zero)) as [limit|]; [|discriminate].
+    + destruct (finish m (sum_limits ls)) as [limit|]; [|discriminate].
       (* the head is dropped: whatever the rest does, the result is shorter *)
       clear IH Hex.
       assert (Hlen : forall pend inf om i k o, pass m inf pend om = LOk (i, k, o) -> (length k <= length pend)%nat).
@@ -588,7 +585,7 @@ Proof.
           destruct (child_limits inf cx) as [| |lx]; [discriminate| |].
           + destruct (pass m inf xs om) as [[[i2 k2] o2]| | | |] eqn:E2; try discriminate.
             inversion Hp; subst. cbn [length]. specialize (IHx _ _ _ _ _ E2). lia.
-          + destruct (fold_left (fold_step m) lx (Some lim_zero)); [|discriminate].
+          + destruct (finish m (sum_limits lx)); [|discriminate].
             specialize (IHx _ _ _ _ _ Hp). cbn [length]. lia. }
       specialize (Hlen _ _ _ _ _ _ H). cbn [length]. lia.
 Qed.
@@ -644,54 +641,59 @@ Definition limits_spec (L : limits) : Prop :=
     /\ (forall l, In l done -> lim_le l L)
     /\ lim_fields_attained L done.
 
-Lemma loop_sound : forall m, mode_ok m -> forall fuel info pending omax done L,
-  Inv info -> OmaxInv info omax done -> (forall g, unresolved info g -> In g pending) ->
-  loop m fuel info pending omax = LOk L -> limits_spec L.
+(* ... and, for the narrowing code, that every total did fit *)
+Definition all_fit : Prop := forall g, is_comp g -> exists l, has_limits gl g l /\ small l.
+
+Lemma loop_sound : forall m fuel info pending omax done L,
+  Inv info -> OmaxInv m info omax done -> (forall g, unresolved info g -> In g pending) ->
+  loop m fuel info pending omax = LOk L -> limits_spec L /\ (m = Checked -> all_fit).
 Proof.
-  intros m Hm. induction fuel as [|f IH]; intros info pending omax done L HI HO HU H.
-  - destruct pending as [|p ps]; cbn [loop] in H; [|discriminate].
-    inversion H; subst. clear H. destruct HO as (O1 & O2 & O3). exists done.
-    split; [exact O2|]. split.
+  intros m.
+  assert (Hbase : forall info omax done, Inv info -> OmaxInv m info omax done ->
+            (forall g, unresolved info g -> False) -> limits_spec omax /\ (m = Checked -> all_fit)).
+  { intros info omax done HI (O1 & O2 & O3 & O4) HU.
+    assert (Hall : forall g, is_comp g -> exists l, has_limits gl g l /\ In l done).
     { intros g Hc. pose proof Hc as (c & bb & EG). pose proof (HI g) as Hg. rewrite EG in Hg.
       destruct Hg as (gi & Ei & _ & El & _).
       destruct (gi_limits gi) as [l|] eqn:E.
       - exists l. split; [auto|]. eapply O3; eauto.
       - exfalso. apply (HU g). exists gi. auto. }
-    destruct (fold_lim_max_spec done lim_zero) as (_ & F2 & F3 & F4 & F5). cbv zeta in *.
-    rewrite <- O1 in *. split; [exact F2|]. unfold lim_fields_attained. cbn [lim_zero l_pts l_ctr l_depth] in *. auto.
-  - destruct pending as [|p ps]; cbn [loop] in H.
-    + (* same as above *)
-      inversion H; subst. clear H. destruct HO as (O1 & O2 & O3). exists done.
-      split; [exact O2|]. split.
-      { intros g Hc. pose proof Hc as (c & bb & EG). pose proof (HI g) as Hg. rewrite EG in Hg.
-        destruct Hg as (gi & Ei & _ & El & _).
-        destruct (gi_limits gi) as [l|] eqn:E.
-        - exists l. split; [auto|]. eapply O3; eauto.
-        - exfalso. apply (HU g). exists gi. auto. }
+    split.
+    - exists done. split; [exact O2|]. split; [exact Hall|].
       destruct (fold_lim_max_spec done lim_zero) as (_ & F2 & F3 & F4 & F5). cbv zeta in *.
       rewrite <- O1 in *. split; [exact F2|]. unfold lim_fields_attained. cbn [lim_zero l_pts l_ctr l_depth] in *. auto.
+    - intros Hm g Hc. destruct (Hall g Hc) as (l & H1 & H2). exists l. split; [exact H1|]. apply (O4 Hm l H2). }
+  induction fuel as [|f IH]; intros info pending omax done L HI HO HU H.
+  - destruct pending as [|p ps]; cbn [loop] in H; [|discriminate].
+    inversion H; subst. eapply Hbase; eauto.
+  - destruct pending as [|p ps]; cbn [loop] in H.
+    + inversion H; subst. eapply Hbase; eauto.
     + destruct (pass m info (p :: ps) omax) as [[[i k] om]| | | |] eqn:Ep; try discriminate.
       destruct (length k <? length (p :: ps))%nat; [|discriminate].
-      destruct (pass_sound m Hm _ _ _ _ _ _ _ HI HO Ep) as (I1 & (done' & I2) & I3 & I4 & I5).
+      destruct (pass_sound m _ _ _ _ _ _ _ HI HO Ep) as (I1 & (done' & I2) & I3 & I4 & I5).
       eapply IH; [exact I1|exact I2| |exact H].
       intros g Hu. destruct (I4 g Hu) as (Hu0 & Hk). apply Hk. apply HU. exact Hu0.
 Qed.
 
-Lemma loop_complete : forall m, mode_ok m -> refs_ok -> forall rank, acyclic rank ->
+(* on an acyclic table with existing references the loop never panics: it succeeds, or it reports
+   a composite whose totals do not fit *)
+Lemma loop_outcomes : forall m, refs_ok -> forall rank, acyclic rank ->
   forall fuel info pending omax done,
   (length pending <= fuel)%nat ->
-  Inv info -> OmaxInv info omax done ->
+  Inv info -> OmaxInv m info omax done ->
   (forall g, In g pending -> is_comp g) -> (forall g, unresolved info g -> In g pending) ->
-  exists L, loop m fuel info pending omax = LOk L.
+  (exists L, loop m fuel info pending omax = LOk L)
+  \/ (loop m fuel info pending omax = LTooBig /\ m = Checked /\ too_big).
 Proof.
-  intros m Hm Hrefs rank Hacyc. induction fuel as [|f IH]; intros info pending omax done Hlen HI HO Hp HU.
-  - destruct pending; [cbn; eauto|cbn in Hlen; lia].
-  - destruct pending as [|p ps] eqn:Epend; [cbn; eauto|]. rewrite <- Epend in *.
+  intros m Hrefs rank Hacyc. induction fuel as [|f IH]; intros info pending omax done Hlen HI HO Hp HU.
+  - destruct pending; [left; cbn; eauto|cbn in Hlen; lia].
+  - destruct pending as [|p ps] eqn:Epend; [left; cbn; eauto|]. rewrite <- Epend in *.
     assert (Hne : pending <> []) by (rewrite Epend; discriminate).
     cbn [loop]. rewrite Epend. cbn [loop]. rewrite <- Epend.
-    destruct (pass_total m Hm Hrefs pending info omax done HI HO Hp) as (i & k & om & Ep).
+    destruct (pass_outcomes m Hrefs pending info omax done HI HO Hp) as [(i & k & om & Ep)|(Ep & Hm & Hb)].
+    2:{ rewrite Ep. right. auto. }
     rewrite Ep.
-    destruct (pass_sound m Hm _ _ _ _ _ _ _ HI HO Ep) as (I1 & (done' & I2) & I3 & I4 & I5).
+    destruct (pass_sound m _ _ _ _ _ _ _ HI HO Ep) as (I1 & (done' & I2) & I3 & I4 & I5).
     (* the pending glyph of least rank has every component resolved *)
     destruct (min_rank_elem rank pending Hne) as (g & Hgin & Hmin).
     destruct (Hp g Hgin) as (c & bb & EG).
@@ -711,12 +713,12 @@ Proof.
     + intros x Hu. destruct (I4 x Hu) as (Hu0 & Hk). apply Hk. apply HU. exact Hu0.
 Qed.
 
-Lemma OmaxInv_init : forall info, Inv info -> (forall g, is_comp g -> unresolved info g) ->
-  OmaxInv info lim_zero [].
+Lemma OmaxInv_init : forall m info, Inv info -> (forall g, is_comp g -> unresolved info g) ->
+  OmaxInv m info lim_zero [].
 Proof.
-  intros info HI Hun. repeat split.
-  - intros l [].
+  intros m info HI Hun. split; [reflexivity|]. split; [intros l []|]. split.
   - intros g gi l Hc Hi Hl. destruct (Hun g Hc) as (gi' & E1 & E2). congruence.
+  - intros _ l [].
 Qed.
 
 Lemma info0_unresolved : forall g, unresolved info0 g <-> is_comp g.
@@ -726,8 +728,13 @@ Proof.
   - intros (c & bb & ->). cbn. eexists. split; reflexivity.
 Qed.
 
+Lemma mode_ok_not_too_big : forall m, mode_ok m -> m = Checked -> ~ too_big.
+Proof.
+  intros m [->|H] Hm; [discriminate|]. intros (g & l & _ & Hl & Hn). apply Hn. eapply H; eauto.
+Qed.
+
 (* The fixed point computes the recursive definition, whatever order the hash map yields the
-   composites in; with the u16 sums of the code as long as no total reaches 65536. *)
+   composites in — for the narrowing code as long as every total fits. *)
 Lemma composite_limits_main : forall m rank pending,
   simple_fits -> refs_ok -> acyclic rank -> mode_ok m ->
   (forall g, In g pending <-> is_comp g) ->
@@ -735,20 +742,40 @@ Lemma composite_limits_main : forall m rank pending,
 Proof.
   intros m rank pending Hfit Hrefs Hacyc Hm Hpend.
   pose proof (Inv_info0 Hfit) as HI.
-  assert (HO : OmaxInv info0 lim_zero []) by (apply OmaxInv_init; [exact HI|intros g; apply info0_unresolved]).
+  assert (HO : OmaxInv m info0 lim_zero []) by (apply OmaxInv_init; [exact HI|intros g; apply info0_unresolved]).
   assert (HU : forall g, unresolved info0 g -> In g pending) by (intros g Hu; apply Hpend, info0_unresolved, Hu).
   assert (Hp : forall g, In g pending -> is_comp g) by (intros g; apply Hpend).
-  destruct (loop_complete m Hm Hrefs rank Hacyc (length pending) info0 pending lim_zero [] (le_n _) HI HO Hp HU) as (L & HL).
-  exists L. split; [exact HL|]. eapply loop_sound; eauto.
+  destruct (loop_outcomes m Hrefs rank Hacyc (length pending) info0 pending lim_zero [] (le_n _) HI HO Hp HU)
+    as [(L & HL)|(_ & Hc & Hb)].
+  - exists L. split; [exact HL|]. eapply loop_sound; eauto.
+  - exfalso. eapply mode_ok_not_too_big; eauto.
+Qed.
+
+(* A total that does not fit is reported as an error: never a wrapped value, never a panic. *)
+Lemma composite_limits_overflow_reported : forall rank pending,
+  simple_fits -> refs_ok -> acyclic rank ->
+  (forall g, In g pending <-> is_comp g) ->
+  (exists g, is_comp g /\ forall l, has_limits gl g l -> ~ small l) ->
+  update_composite_limits Checked info0 pending = LTooBig.
+Proof.
+  intros rank pending Hfit Hrefs Hacyc Hpend (g & Hc & Hbig).
+  pose proof (Inv_info0 Hfit) as HI.
+  assert (HO : OmaxInv Checked info0 lim_zero []) by (apply OmaxInv_init; [exact HI|intros x; apply info0_unresolved]).
+  assert (HU : forall x, unresolved info0 x -> In x pending) by (intros x Hu; apply Hpend, info0_unresolved, Hu).
+  assert (Hp : forall x, In x pending -> is_comp x) by (intros x; apply Hpend).
+  destruct (loop_outcomes Checked Hrefs rank Hacyc (length pending) info0 pending lim_zero [] (le_n _) HI HO Hp HU)
+    as [(L & HL)|(HL & _)]; [|exact HL].
+  exfalso. destruct (loop_sound Checked _ _ _ _ _ _ HI HO HU HL) as [_ Hfits].
+  destruct (Hfits eq_refl g Hc) as (l & H1 & H2). exact (Hbig l H1 H2).
 Qed.
 
 Lemma composite_limits_sound : forall m pending L,
-  simple_fits -> mode_ok m -> (forall g, is_comp g -> In g pending) ->
-  update_composite_limits m info0 pending = LOk L -> limits_spec L.
+  simple_fits -> (forall g, is_comp g -> In g pending) ->
+  update_composite_limits m info0 pending = LOk L -> limits_spec L /\ (m = Checked -> all_fit).
 Proof.
-  intros m pending L Hfit Hm Hpend H.
+  intros m pending L Hfit Hpend H.
   pose proof (Inv_info0 Hfit) as HI.
-  assert (HO : OmaxInv info0 lim_zero []) by (apply OmaxInv_init; [exact HI|intros g; apply info0_unresolved]).
+  assert (HO : OmaxInv m info0 lim_zero []) by (apply OmaxInv_init; [exact HI|intros g; apply info0_unresolved]).
   eapply loop_sound; eauto. intros g Hu. apply Hpend, info0_unresolved, Hu.
 Qed.
 
@@ -819,7 +846,7 @@ Proof. intros i1 i2 H. induction c as [|x t IH]; cbn [child_limits]; [reflexivit
 Definition out_rel {A} (R : A -> A -> Prop) (a b : outcome A) : Prop :=
   match a, b with
   | LOk x, LOk y => R x y
-  | LOverflow, LOverflow | LStuck, LStuck | LMissing, LMissing | LFuel, LFuel => True
+  | LTooBig, LTooBig | LStuck, LStuck | LMissing, LMissing | LFuel, LFuel => True
   | _, _ => False
   end.
 
@@ -834,7 +861,7 @@ Proof.
     + specialize (IH i1 i2 omax H).
       destruct (pass m i1 rest omax) as [[[a1 k1] o1]| | | |], (pass m i2 rest omax) as [[[a2 k2] o2]| | | |]; cbn in IH |- *; try tauto.
       destruct IH as (E1 & E2 & E3). cbn in *. subst. auto.
-    + destruct (fold_left (fold_step m) ls (Some lim_zero)) as [limit|]; [|exact I].
+    + destruct (finish m (sum_limits ls)) as [limit|]; [|exact I].
       apply IH. intros g. unfold upd. destruct (g =? gid); [reflexivity|apply H].
 Qed.
 
@@ -1630,22 +1657,15 @@ Qed.
 (** * 5. The refutations (faithful arithmetic) and the whole-font checker *)
 Open Scope N_scope.
 
-(* DESIGN 6.2: glyph 1 = 100 components of glyph 0, which has 700 points *)
+(* DESIGN 6.2: glyph 1 = 100 components of glyph 0, which has 700 points.  Before the repair the
+   u16 sum wrapped to 4464 in release builds and panicked in debug builds. *)
 Definition overflow_witness : list glyph :=
   [GSimple (repeat 4 175) (0, 0, 10, 10)%Z; GComposite (repeat 0 100) (0, 0, 10, 10)%Z].
 
-Lemma composite_limits_u16_refuted :
-  exists gl pending,
-    (forall g, In g pending <-> is_comp gl g)
-    /\ (exists o, limits_run Ideal gl pending = LOk o /\ lo_cpts o = 70000)
-    /\ (exists o, limits_run Release gl pending = LOk o /\ lo_cpts o = 4464)
-    /\ limits_run Debug gl pending = LOverflow.
-Proof.
-  exists overflow_witness, [1]. split.
-  - intros g. rewrite <- composite_ids_is_comp. vm_compute. tauto.
-  - split; [eexists; split; vm_compute; reflexivity|].
-    split; [eexists; split; vm_compute; reflexivity|]. vm_compute. reflexivity.
-Qed.
+Lemma overflow_witness_reported :
+  (exists o, limits_run Ideal overflow_witness [1] = LOk o /\ lo_cpts o = 70000)
+  /\ limits_run Checked overflow_witness [1] = LTooBig.
+Proof. split; [eexists; split; vm_compute; reflexivity|vm_compute; reflexivity]. Qed.
 
 Open Scope Q_scope.
 (* a component scaled by one half: the point (21, 0) lands on x = 10.5, the box says 11 *)
@@ -1664,10 +1684,12 @@ Proof.
 Qed.
 
 Open Scope Z_scope.
-(* 515 glyphs, 257 of advance 30001 and 258 of 30000: the mean is 30000.499.. *)
-Lemma xavg_f32_refuted :
-  exists count total, 0 < count /\ xavg_f32 count total <> xavg_exact count total.
-Proof. exists 515, 15450257. split; [lia|]. vm_compute. discriminate. Qed.
+(* 515 glyphs, 257 of advance 30001 and 258 of 30000: the mean is 30000.499..; dividing in f32
+   (the code before the repair) gave 30001 *)
+Lemma xavg_f32_differs :
+  exists count total, 0 < count /\ xavg_f32 count total <> xavg_exact count total
+                      /\ xavg_f64 count total = xavg_exact count total.
+Proof. exists 515, 15450257. split; [lia|]. split; [vm_compute; discriminate|vm_compute; reflexivity]. Qed.
 
 (* boolean equalities *)
 Lemma bbox_eqb_eq : forall a b, bbox_eqb a b = true -> a = b.
@@ -1754,10 +1776,10 @@ Proof.
   split; [exact X1|]. split; [exact X2|]. split; [exact X3|]. split; [exact X4|].
   (* maxp / head *)
   unfold check_limits in Hl. rewrite Emaxp in Hl. set (gl := font_glyphs f) in *.
-  destruct (limits_run Ideal gl (composite_ids 0 gl)) as [o| | | |] eqn:Erun; try discriminate.
+  destruct (limits_run Checked gl (composite_ids 0 gl)) as [o| | | |] eqn:Erun; try discriminate.
   repeat (apply andb_split in Hl; destruct Hl as [Hl ?]).
   unfold limits_run in Erun. rewrite limits_run_info0 in Erun.
-  destruct (update_composite_limits Ideal (info0 gl) (composite_ids 0 gl)) as [c| | | |] eqn:Eupd; try discriminate.
+  destruct (update_composite_limits Checked (info0 gl) (composite_ids 0 gl)) as [c| | | |] eqn:Eupd; try discriminate.
   inversion Erun; subst o. clear Erun. cbn [lo_pts lo_ctr lo_elems lo_cpts lo_cctr lo_depth lo_bbox] in *.
   destruct (mx_fold_summary gl mx_init 0%N) as (M1 & M2 & M3 & M4). cbv zeta in M1, M2, M3, M4.
   cbn [mx_init mx_pts mx_ctr mx_elems mx_bbox] in M1, M2, M3, M4.
@@ -1767,8 +1789,9 @@ Proof.
   split; [apply fold_maxN_is_max|]. split; [apply fold_maxN_is_max|]. split; [apply fold_maxN_is_max|].
   split.
   { assert (c = mkLim cp cc d) by (destruct c; cbn in *; f_equal; lia). subst c.
-    eapply composite_limits_sound; [apply simple_fits_b_sound; eassumption|now left| |exact Eupd].
-    intros g Hg. apply composite_ids_is_comp. exact Hg. }
+    refine (proj1 (composite_limits_sound gl Checked (composite_ids 0 gl) _ _ _ Eupd)).
+    - apply simple_fits_b_sound; eassumption.
+    - intros g Hg. apply composite_ids_is_comp. exact Hg. }
   split.
   { match goal with [ Hb : bbox_eqb (f_head_bbox f) _ = true |- _ ] => apply bbox_eqb_eq in Hb; rename Hb into Hbb end.
     pose proof (head_bbox_is_union gl) as HU. unfold is_union_of in *.
@@ -1784,3 +1807,112 @@ Proof.
   - destruct (min_max_char (f_cps f)) as [mn mx]. apply andb_split in Hmm. destruct Hmm. f_equal; lia.
   - lia.
 Qed.
+
+(* ========================================================================================== *)
+(** * 6. xAvgCharWidth: a float division with enough precision gives the exactly rounded mean *)
+Open Scope Q_scope.
+
+Lemma floor_unique : forall (y : Q) (n : Z), inject_Z n <= y -> y < inject_Z n + 1 -> Qfloor y = n.
+Proof.
+  intros y n H1 H2. pose proof (Qfloor_le y) as F1. pose proof (Qlt_floor y) as F2.
+  rewrite inject_Z_plus in F2. change (inject_Z 1) with 1 in F2.
+  set (f := Qfloor y) in *.
+  assert (C : (f <= n)%Z).
+  { destruct (Z_le_gt_dec f n) as [|G]; [assumption|]. exfalso.
+    assert (H0 : (n + 1 <= f)%Z) by lia. rewrite Zle_Qle in H0. rewrite inject_Z_plus in H0.
+    change (inject_Z 1) with 1 in H0. lra. }
+  assert (D : (n <= f)%Z).
+  { destruct (Z_le_gt_dec n f) as [|G]; [assumption|]. exfalso.
+    assert (H0 : (f + 1 <= n)%Z) by lia. rewrite Zle_Qle in H0. rewrite inject_Z_plus in H0.
+    change (inject_Z 1) with 1 in H0. lra. }
+  lia.
+Qed.
+
+Lemma inject_Z_minus' : forall x y : Z, inject_Z (x - y) = inject_Z x - inject_Z y.
+Proof. intros. unfold Z.sub, Qminus. now rewrite inject_Z_plus, inject_Z_opp. Qed.
+
+Section Xavg.
+(* the rounding of the float type: any monotone function that leaves the multiples of 2^-20 below
+   2^33 alone — binary64 round-to-nearest is one (53 significant bits), binary32 is not *)
+Variable rnd : Q -> Q.
+Hypothesis rnd_mono : forall a b, a <= b -> rnd a <= rnd b.
+Hypothesis rnd_grid : forall j : Z, (0 <= j < 2 ^ 53)%Z -> rnd (inject_Z j * (1 # 1048576)) == inject_Z j * (1 # 1048576).
+
+Lemma rnd_eq : forall a b, a == b -> rnd a == rnd b.
+Proof. intros a b E. apply Qle_antisym; apply rnd_mono; rewrite E; apply Qle_refl. Qed.
+
+Lemma rnd_int : forall z : Z, (0 <= z < 2 ^ 33)%Z -> rnd (inject_Z z) == inject_Z z.
+Proof.
+  intros z Hz. assert (E : inject_Z z == inject_Z (z * 1048576) * (1 # 1048576)).
+  { rewrite inject_Z_mult. change (inject_Z 1048576) with (1048576 # 1). field. }
+  rewrite (rnd_eq _ _ E), rnd_grid; [symmetry; exact E|]. lia.
+Qed.
+
+Lemma xavg_fp_exact : forall count total : Z,
+  (0 < count <= 65536)%Z -> (0 <= total <= count * 65535)%Z ->
+  xavg_fp rnd count total = sat_i16 (xavg_exact count total).
+Proof.
+  intros C T HC HT. unfold xavg_fp, xavg_exact. destruct (Z.eqb_spec C 0) as [|_]; [lia|]. f_equal.
+  set (n := ((2 * T + C) / (2 * C))%Z).
+  assert (Hn1 : (2 * C * n <= 2 * T + C)%Z) by (unfold n; apply Z.mul_div_le; lia).
+  assert (Hn2 : (2 * T + C + 1 <= 2 * C * n + 2 * C)%Z).
+  { unfold n. pose proof (Z.mod_pos_bound (2 * T + C) (2 * C)). pose proof (Z.div_mod (2 * T + C) (2 * C)). lia. }
+  assert (Hn0 : (0 <= n)%Z) by (unfold n; apply Z.div_pos; lia).
+  assert (Hn3 : (n <= 65535)%Z) by nia.
+  (* the same facts in Q *)
+  assert (Q1 : 2 * inject_Z C * inject_Z n <= 2 * inject_Z T + inject_Z C).
+  { rewrite Zle_Qle in Hn1. rewrite inject_Z_plus, !inject_Z_mult in Hn1. exact Hn1. }
+  assert (Q2 : 2 * inject_Z T + inject_Z C + 1 <= 2 * inject_Z C * inject_Z n + 2 * inject_Z C).
+  { rewrite Zle_Qle in Hn2. rewrite !inject_Z_plus, !inject_Z_mult in Hn2. exact Hn2. }
+  assert (QC : 0 < inject_Z C) by (change 0 with (inject_Z 0); rewrite <- Zlt_Qlt; lia).
+  assert (QC' : inject_Z C <= 65536) by (change 65536 with (inject_Z 65536); rewrite <- Zle_Qle; lia).
+  assert (QT : 0 <= inject_Z T) by (change 0 with (inject_Z 0); rewrite <- Zle_Qle; lia).
+  assert (Qn : 0 <= inject_Z n) by (change 0 with (inject_Z 0); rewrite <- Zle_Qle; lia).
+  set (r := inject_Z T / inject_Z C).
+  assert (ET : rnd (inject_Z T) == inject_Z T) by (apply rnd_int; nia).
+  assert (EC : rnd (inject_Z C) == inject_Z C) by (apply rnd_int; lia).
+  assert (Ex : rnd (rnd (inject_Z T) / rnd (inject_Z C)) == rnd r).
+  { apply rnd_eq. unfold r. rewrite ET, EC. reflexivity. }
+  (* r lies between two grid points that round to themselves *)
+  set (g := inject_Z ((2 * n + 1) * 524288 - 1) * (1 # 1048576)).
+  assert (Eg : g == inject_Z n + (1 # 2) - (1 # 1048576)).
+  { unfold g. rewrite inject_Z_minus', inject_Z_mult, inject_Z_plus, inject_Z_mult.
+    change (inject_Z 524288) with (524288 # 1). change (inject_Z 2) with 2. change (inject_Z 1) with 1. field. }
+  assert (Hr_hi : r <= g).
+  { rewrite Eg. unfold r. apply Qle_shift_div_r; [exact QC|]. nra. }
+  assert (Hx_hi : rnd r <= inject_Z n + (1 # 2) - (1 # 1048576)).
+  { assert (Rg : rnd g == g) by (unfold g; apply rnd_grid; lia).
+    pose proof (rnd_mono _ _ Hr_hi). lra. }
+  assert (Hx_lo : inject_Z n - (1 # 2) <= rnd r /\ 0 <= rnd r).
+  { split.
+    - destruct (Z.eq_dec n 0) as [E0|Hnz].
+      + rewrite E0. assert (Z0 : rnd 0 == 0) by (apply (rnd_int 0); lia).
+        assert (0 <= rnd r). { rewrite <- Z0. apply rnd_mono. unfold r. apply Qle_shift_div_l; [exact QC|]. lra. }
+        change (inject_Z 0) with 0. lra.
+      + set (a := inject_Z ((2 * n - 1) * 524288) * (1 # 1048576)).
+        assert (Ea : a == inject_Z n - (1 # 2)).
+        { unfold a. rewrite inject_Z_mult, inject_Z_minus', inject_Z_mult.
+          change (inject_Z 524288) with (524288 # 1). change (inject_Z 2) with 2. change (inject_Z 1) with 1. field. }
+        assert (Ra : rnd a == a) by (unfold a; apply rnd_grid; lia).
+        assert (Har : a <= r) by (rewrite Ea; unfold r; apply Qle_shift_div_l; [exact QC|]; nra).
+        pose proof (rnd_mono _ _ Har). lra.
+    - assert (Z0 : rnd 0 == 0) by (apply (rnd_int 0); lia).
+      rewrite <- Z0. apply rnd_mono. unfold r. apply Qle_shift_div_l; [exact QC|]. lra. }
+  destruct Hx_lo as [Hx_lo Hx_0].
+  set (x := rnd (rnd (inject_Z T) / rnd (inject_Z C))) in *.
+  assert (Hx1 : inject_Z n <= x + (1 # 2)) by (rewrite Ex; lra).
+  assert (Hx2 : x + (1 # 2) <= inject_Z n + 1 - (1 # 1048576)) by (rewrite Ex; lra).
+  (* and so does the sum with one half *)
+  assert (Hy1 : inject_Z n <= rnd (x + (1 # 2))).
+  { pose proof (rnd_int n ltac:(lia)). pose proof (rnd_mono _ _ Hx1). lra. }
+  set (h := inject_Z ((n + 1) * 1048576 - 1) * (1 # 1048576)).
+  assert (Eh : h == inject_Z n + 1 - (1 # 1048576)).
+  { unfold h. rewrite inject_Z_minus', inject_Z_mult, inject_Z_plus.
+    change (inject_Z 1048576) with (1048576 # 1). change (inject_Z 1) with 1. field. }
+  assert (Hy2 : rnd (x + (1 # 2)) <= inject_Z n + 1 - (1 # 1048576)).
+  { assert (Rh : rnd h == h) by (unfold h; apply rnd_grid; lia).
+    assert (Hxh : x + (1 # 2) <= h) by lra.
+    pose proof (rnd_mono _ _ Hxh). lra. }
+  apply floor_unique; lra.
+Qed.
+End Xavg.
